@@ -190,6 +190,11 @@ def run_tcp(spec, rec):
     t.start()
     old_si = sys.getswitchinterval()
     sys.setswitchinterval(1e-6)
+    # yield injection at the LINE events of mllp.py (sys.monitoring): every handler thread gives the GIL away between
+    # statements of the request handler with probability 0.2, so windows between two statements are actually exercised
+    from .. import sched
+    inj = sched.YieldInjector(spec['seed'] * 31 + spec['part'], p_logic=0.0005, p_anchor=0.2)
+    sched.start(inj.on_line)
     try:
         for rnd in range(spec['rounds']):
             N = [64, 32, 16, 8, 4, 2][(rnd + spec['part']) % 6]
@@ -268,6 +273,8 @@ def run_tcp(spec, rec):
             hist.events[:] = []
         rec.sample({'kind': 'tcp', 'levels': sorted(rec.seen_sets.get('concurrency_levels', []))})
     finally:
+        sched.stop()
+        rec.count('yields_injected_in_request_handlers', inj.anchor_yields)
         sys.setswitchinterval(old_si)
         srv.shutdown()
         srv.server_close()
@@ -345,6 +352,8 @@ def floors(tier, m):
         out.append('fault kinds seen: %s' % sorted(m['seen'].get('fault_kinds', ())))
     if c.get('handler_events_observed', 0) < 1000:
         out.append('handler monitors reached too rarely')
+    if c.get('yields_injected_in_request_handlers', 0) < 100:
+        out.append('yield injection never reached the request handlers')
     if c.get('to_mllp_checks', 0) < 30:
         out.append('to_mllp barely checked')
     return out
